@@ -254,7 +254,7 @@ theorem inv_ackOpen {s s' : St} {c seq ph : Nat} {isTimeout isErr : Bool} (h : I
               · cases ha
               · rename_i s2 he
                 cases ha
-                exact Inv04.of_frame (frame_eibcOnRefund he) key
+                exact Inv04.of_frame (frame_eibcOnRefund (eibcRefundHandler_ok he)) key
             · cases ha
               exact key
 
@@ -570,6 +570,11 @@ theorem inv_step {s : St} (o : Op) (h : Inv04 s) : Inv04 (step s o).1 := by
     · exact h
   | chanClose c => exact inv_ofM h (fun _ e => Inv04.of_frame (frame_setChanClosed e) h)
   | chanOpen c => exact inv_ofM h (fun _ e => Inv04.of_frame (frame_setChanClosed e) h)
+  | timeoutOnClose c seq => exact inv_ofM h (fun _ e => by unfold timeoutOnClose at e; split at e <;> cases e; exact h)
+  | sendBlk a c d amt =>
+    exact inv_ofM h (fun _ e => by
+      obtain ⟨s1, hs, rfl⟩ := sendBlk_ok e
+      exact (inv_sendOpen h hs : Inv04 s1))
   | finalize a rid ph t src seq => exact inv_ofM h (fun _ e => inv_msgFinalize h e)
   | finalizeByKey a b => exact inv_ofM h (fun _ e => inv_msgFinalizeByKey h e)
   | fulfill a id fee => exact inv_ofM h (fun _ e => inv_msgFulfill h e)
